@@ -29,10 +29,20 @@ def C19():
         r_arch.lint(chk, units)
         if C.tier() == "thorough":
             r_arch.gxx_witness(chk)
+    # "... and work": a type with exact arithmetic has no infinity, so valid input must never divide by an exact zero
+    # (repeated knots in the generator) - decided by the region evaluator on all knot multiplicity patterns
+    from . import r_reg
+    u = F.load("dbl_off")
+    chk.units.append("dbl_off")
+    maxlen = 5 if C.tier() == "thorough" else 4
+    r_reg.run_jobs(chk, u, "R-REG.divzero", _jobs("r_reg_val", "generator_suite", range(0, maxlen + 1), maxlen=maxlen,
+                                                  orders=(0, 1, 2, 3))[:-1],
+                   view=lambda st: {k: v for k, v in st.items() if "division" in k[2]})
     return chk
 
 
 ALL = {"C19": C19}
+# (C19 uses _jobs, defined below; resolved at call time)
 
 
 def _lib_units(extra=()):
@@ -139,7 +149,8 @@ def _stateless(chk, extra_units=()):
     units = _lib_units(["cases_off"] + list(extra_units))
     r_own.statics(chk, units)
     r_own.const_correctness(chk, units)
-    controls.require(chk, ["R-EFF.static", "R-OWN.mutable", "R-OWN.cast"])
+    r_own.frozen_statics(chk, units)
+    controls.require(chk, ["R-EFF.static", "R-OWN.mutable", "R-OWN.cast", "R-EFF.frozen"])
 
 
 def C02():
@@ -175,6 +186,7 @@ def C15():
                 "{zero, non-zero, unordered}; Spline/Support/Grid == and != against the statement, incl. symmetry, "
                 "reflexivity, copy-equality, and every way two grids can differ")
     chk.trust(*REG_TRUST)
+    _stateless(chk)   # a memoised predicate would be a mutable member
     chk.assume(REG_ASSUME[0], "reflexivity needs coefficients that equal themselves (no NaN)")
     nmax = 6 if C.tier() == "thorough" else 4
     total = 0
@@ -441,6 +453,10 @@ def C20():
     scope = lambda f: C.in_repo(f.decl["pfile"]) and not C.in_lib(f.decl["pfile"])
     r_small.r_ex(chk, units, scope)
     r_small.r_opt(chk, units, scope=lambda f: True)
+    from . import r_own as _ro
+    _ro.lifetimes(chk, units)
+    _ro.invalidation(chk, units)
+    _ro.frozen_statics(chk, units)
     # library rules on what the examples instantiate
     chk.rule("R-GRD.a", "grid guard must-pass-through on the library instantiations created by the examples")
     ents = r_grd.run(chk, units)
@@ -451,7 +467,7 @@ def C20():
     if nfun < 15:
         raise AnalysisBroken("only %d example functions parsed" % nfun)
     from . import controls
-    controls.require(chk, ['R-EX', 'R-OPT', 'R-GRD.a', 'R-OWN.field'])
+    controls.require(chk, ['R-EX', 'R-OPT', 'R-GRD.a', 'R-OWN.field', 'R-LIFE', 'R-LIFE.inval', 'R-EFF.frozen'])
     return chk
 
 
@@ -511,11 +527,12 @@ def C09():
     r_small.r_opt(chk, units)
     r_own.field_types(chk, units)
     r_own.lifetimes(chk, units + _example_units())
+    r_own.invalidation(chk, units + _example_units())
     r_inv.grid_move(chk, units)
     chk.floor("R-REG.ub", chk.rules["R-REG.ub"]["instances"], 120, "(function, clause) obligations")
     chk.floor("R-OPT", chk.rules["R-OPT"]["instances"], 8, "optional dereference sites")
     from . import controls
-    controls.require(chk, ['R-OPT', 'R-OWN.field', 'R-LIFE'])
+    controls.require(chk, ['R-OPT', 'R-OWN.field', 'R-LIFE', 'R-LIFE.inval'])
     return chk
 
 
